@@ -115,6 +115,203 @@ def is_now(e):
     return isinstance(e, ast.Call) and canon(e.func) in ("time.monotonic_ns", "time.monotonic", "monotonic_ns")
 
 
+def r3_paths(L, repo):
+    """R3 by path-sensitive forward substitution of ONE iteration of the worker loop (a symbolic transformer of the
+    loop-carried deadline): however the statements are arranged or moved into helpers, every path through the body
+    must be one of
+        normal:   (D + TICK) - now() >= 0 :  D' = D + TICK,  wait((D + TICK - now()) x unit), then one tick
+        overrun:  (D + TICK) - now() <  0 :  D' = now(),     wait(0), then one tick
+    with the loop left exactly when the wait reports the breaker, D = now() before the loop, TICK defined once before
+    the loop from the frame period (4.615 ms +- 1 us) and the wait timeout scaled to seconds."""
+    from symfwd import Fwd
+    from pyfront import clone as _cl
+    ci, fd = repo.need_method("clck_gen", "CLCKGen", "_worker")
+    fn = "CLCKGen._worker"
+    L.fn(F, fn)
+    mod = repo.mod("clck_gen")
+    loops = [n for n in fd.body if isinstance(n, ast.While)]
+    if len(loops) != 1:
+        raise AnalysisError("_worker: expected one top-level worker loop, found %d" % len(loops))
+    loop = loops[0]
+    li = fd.body.index(loop)
+    pre = [st for st in fd.body[:li] if not isinstance(st, (ast.If, ast.Try))]     # scheduler priority set-up is not clock code
+    fw0 = Fwd()
+    env0 = fw0.run(pre) or {}
+    NOW = ("time.monotonic_ns()", "time.monotonic()", "monotonic_ns()")
+    # one iteration, from a state where every loop-carried local is its own symbol
+    carried = sorted({n.id for n in ast.walk(loop) if isinstance(n, ast.Name) and isinstance(n.ctx, ast.Store)})
+    fw = Fwd(split=True)
+    fw.run(loop.body, {})
+    paths = [("next", c, e) for c, e in fw.ends] + [("break" if k == "break" else "continue", c, None) for c, k in fw.loopctl] + \
+            [("return", c, None) for c, r in fw.returns]
+    if not fw.ends:
+        raise AnalysisError("_worker: no path completes an iteration")
+
+    def lin(txt_or_ast):
+        e = ast.parse(txt_or_ast, mode="eval").body if isinstance(txt_or_ast, str) else txt_or_ast
+        try:
+            return X.linear(X.PyLower().lower(e))
+        except AnalysisError:
+            return None
+    # the wait literal
+    waits = set()
+    for kind, conds, env in paths:
+        for t, pol in conds:
+            if t.startswith("self._breaker.wait("):
+                waits.add(t)
+    # the deadline: the carried local whose new value on some completed path is itself + a loop-invariant term
+    cand = {}
+    for kind, conds, env in paths:
+        if kind != "next":
+            continue
+        for v in carried:
+            if v in env:
+                l_ = lin(env[v])
+                if l_ is not None and l_[0].get(v) == 1 and l_[1] == 0 and len(l_[0]) == 2:
+                    other = [k for k in l_[0] if k != v][0]
+                    if l_[0][other] == 1:
+                        cand.setdefault(v, set()).add(other)
+    if len(cand) != 1 or len(list(cand.values())[0]) != 1:
+        raise AnalysisError("_worker: loop-carried deadline not identified (candidates %s)" % sorted(cand))
+    D = list(cand)[0]
+    TICK = list(cand[D])[0]
+    L.ob("C09.R3", F, fn, "deadline `%s` starts at the current monotonic time" % D, "now()", canon(env0[D]) if D in env0 else None,
+         D in env0 and canon(env0[D]) in NOW, loop.lineno)
+    tick_ok = TICK.isidentifier() and TICK in env0 and TICK not in carried
+    L.ob("C09.R3", F, fn, "the deadline advances by a loop-invariant tick (`%s`, defined before the loop), not by time measured after the handler" % TICK,
+         "defined once before the loop", "carried" if TICK in carried else ("missing" if TICK not in env0 else "ok"), tick_ok, loop.lineno)
+    want_dt = {D: 1, TICK: 1}
+    n_norm = n_ovr = 0
+    for kind, conds, env in paths:
+        cset = dict(conds)
+        # overrun literal: `<remaining> < 0` with remaining = D + TICK - now()
+        ovr = None
+        extra = []
+        wait_l = None
+        for t, pol in conds:
+            if t in waits:
+                wait_l = pol
+                continue
+            if t == "1":
+                continue
+            e_ = ast.parse(t, mode="eval").body
+            rec = False
+            if isinstance(e_, ast.Compare) and len(e_.ops) == 1 and isinstance(e_.ops[0], ast.Lt):
+                d_ = lin(ast.BinOp(left=e_.left, op=ast.Sub(), right=e_.comparators[0]))
+                if d_ is not None and d_[1] == 0:
+                    co = dict(d_[0])
+                    nowk = [k for k in co if k in NOW]
+                    if len(nowk) == 1 and co.pop(nowk[0]) == -1 and co == want_dt:
+                        ovr = pol
+                        rec = True
+            if not rec:
+                extra.append((t, pol))
+        rowtxt = "overrun=%s wait=%s" % (ovr, wait_l)
+        L.ob("C09.R3", F, fn, "path through one iteration depends only on the overrun test and the breaker wait [%s, %s]" % (kind, rowtxt),
+             [], extra[:3], not extra, loop.lineno)
+        if ovr is None:
+            L.ob("C09.R3", F, fn, "every iteration compares the advanced deadline with the clock [%s]" % kind,
+                 "(%s + %s) - now() < 0 tested" % (D, TICK), lit_fmt(conds), False, loop.lineno)
+            continue
+        # wait timeout
+        wtxt = [t for t, p_ in conds if t in waits]
+        warg = ast.parse(wtxt[0], mode="eval").body.args[0] if wtxt else None
+        if kind == "next":
+            L.require("C09.R3", F, fn, "an iteration completes (and ticks) only when the wait expired without the breaker [%s]" % rowtxt,
+                      False, wait_l, line=loop.lineno)
+            nd = lin(env.get(D, ast.Name(id=D, ctx=ast.Load())))
+            if ovr:
+                n_ovr += 1
+                L.ob("C09.R3", F, fn, "after an overrun the deadline is re-based on the clock (no catch-up ticks)", "now()",
+                     canon(env.get(D)) if D in env else D, D in env and canon(env[D]) in NOW, loop.lineno)
+            else:
+                n_norm += 1
+                L.ob("C09.R3", F, fn, "without overrun the deadline advances by exactly one tick (never re-based: that would accumulate handler time)",
+                     ({D: 1, TICK: 1}, 0), nd, nd == ({D: 1, TICK: 1}, 0), loop.lineno)
+        elif kind == "break":
+            L.require("C09.R3", F, fn, "the loop is left only when the breaker is set [%s]" % rowtxt, True, wait_l, line=loop.lineno)
+        else:
+            L.ob("C09.R3", F, fn, "no path skips the tick or leaves the worker otherwise [%s]" % kind, "next | break", kind, False, loop.lineno)
+        if warg is not None:
+            # (D + TICK - now()) x unit on the normal path, 0 on overrun: fold the scale with a probe
+            probe_env = {}
+            names = sorted({n.id for n in ast.walk(warg) if isinstance(n, ast.Name)})
+            wl = None
+            from symfwd import subst_expr
+            warg = subst_expr(warg, {k: v for k, v in env0.items() if k not in carried and k != TICK})
+            # peel a constant scale factor (x * unit, unit * x, x / k): the unit conversion of the timeout
+            scale_f = 1.0
+            inner = warg
+            for _ in range(3):
+                if isinstance(inner, ast.BinOp) and isinstance(inner.op, (ast.Mult, ast.Div)):
+                    cl_, cr_ = _const(repo, mod, ci, inner.left), _const(repo, mod, ci, inner.right)
+                    if cr_ is not None and cr_ != 0:
+                        scale_f = scale_f * cr_ if isinstance(inner.op, ast.Mult) else scale_f / cr_
+                        inner = inner.left
+                        continue
+                    if cl_ is not None and isinstance(inner.op, ast.Mult):
+                        scale_f *= cl_
+                        inner = inner.right
+                        continue
+                break
+            try:
+                wl = X.linear(X.PyLower(const=lambda e__: (lambda v__: v__ if isinstance(v__, int) else None)(_const(repo, mod, ci, e__))).lower(inner))
+            except AnalysisError:
+                wl = None
+            if ovr:
+                L.ob("C09.R3", F, fn, "on overrun the wait does not sleep (timeout 0)", 0, canon(warg),
+                     wl is not None and not wl[0] and wl[1] == 0, loop.lineno)
+            else:
+                ok_w = False
+                scale = None
+                if wl is not None and wl[1] == 0:
+                    co = dict(wl[0])
+                    nowk = [k for k in co if k in NOW]
+                    if len(nowk) == 1 and set(co) == {D, TICK, nowk[0]}:
+                        ok_w = co[D] == 1 and co[TICK] == 1 and co[nowk[0]] == -1 and scale_f > 0
+                        scale = scale_f
+                L.ob("C09.R3", F, fn, "the wait lasts until the absolute deadline: timeout = (deadline - now()) x unit", "(%s + %s - now()) x unit" % (D, TICK),
+                     canon(warg)[:80], ok_w, loop.lineno)
+                if ok_w:
+                    unit = 1e-9 if any("_ns" in k for k in NOW if k in wl[0]) else 1.0
+                    L.ob("C09.R3", F, fn, "wait timeout is converted to seconds", unit, scale, abs(scale - unit) <= unit * 1e-6, loop.lineno)
+    L.floor("C09.R3", "normal / overrun paths that complete an iteration", min(n_norm, n_ovr), 1)
+    # effects per completed path: exactly one tick, after the wait
+    for conds, eff in [(c, [e for c2, e in fw.effects if c2 == c or tuple(c2) == tuple(c[:len(c2)])]) for k, c, e_ in paths if k == "next"]:
+        ticks = [e for e in eff if e.endswith("send_clck_ind()")]
+        L.require("C09.R3", F, fn, "send_clck_ind() calls per completed iteration", 1, len(ticks), line=loop.lineno)
+    sleeps = [c for c in calls_in(loop) if canon(c.func) in ("time.sleep", "sleep")]
+    L.require("C09.R3", F, fn, "constant sleeps in the loop", 0, len(sleeps))
+    # the tick constant: one TDMA frame
+    c0, init = repo.find_method(ci, "__init__")
+    e = Ev(repo, mod, self_cls=ci)
+    for st in init.body:
+        if isinstance(st, (ast.Assign, ast.AugAssign)):
+            tgt = st.targets[0] if isinstance(st, ast.Assign) else st.target
+            if canon(tgt) == "self.ctr_interval":
+                try:
+                    e.run_stmt(st)
+                except (Unknown, Raised) as ex:
+                    raise AnalysisError("ctr_interval does not fold: %s" % ex)
+    try:
+        tick = e.ev(env0[TICK]) if tick_ok else None
+    except (Unknown, Raised) as ex:
+        raise AnalysisError("tick constant does not fold: %s" % ex)
+    if tick is not None:
+        unit = 1e-9 if D in env0 and canon(env0[D]).endswith("_ns()") else 1.0
+        period = tick * unit
+        L.ob("C09.R3", F, fn, "tick period is one TDMA frame (4.615 ms +- 1 us)", "4.614e-3 .. 4.616e-3 s",
+             "%r (%s * %g)" % (period, tick, unit), abs(period - 4.615e-3) <= 1.0e-6, loop.lineno)
+
+
+def _const(repo, mod, ci, e):
+    try:
+        v = Ev(repo, mod, self_cls=ci).ev(e)
+        return v if isinstance(v, (int, float)) and not isinstance(v, bool) else None
+    except (Unknown, Raised):
+        return None
+
+
 def r3_deadline(L, repo):
     ci, fd = repo.need_method("clck_gen", "CLCKGen", "_worker")
     fn = "CLCKGen._worker"
@@ -285,8 +482,11 @@ def r4_restart(L, repo):
     L.fn(F, fn)
     cfg = CFG(st)
     stores = [n for n in ast.walk(st) if isinstance(n, ast.Assign) and canon(n.targets[0]) == "self.clck_src"]
-    L.require("C09.R4", F, fn, "start() (re)sets the frame counter to the configured start frame",
-              ["self.clck_start"], [canon(s.value) for s in stores])
+    vals_ = [canon(s.value) for s in stores]
+    # the start frame itself, or the start frame reduced modulo the hyperframe (the identity for every frame number)
+    ok_ = len(vals_) == 1 and vals_[0] in ("self.clck_start", "self.clck_start % GSM_HYPERFRAME", "self.clck_start % 2715648")
+    L.ob("C09.R4", F, fn, "start() (re)sets the frame counter to the configured start frame",
+         ["self.clck_start"], vals_, ok_, st.lineno)
     starts = [c for c in calls_in(st) if canon(c.func) == "self._thread.start"]
     L.require("C09.R4", F, fn, "thread is started once", 1, len(starts))
     for s in stores:
@@ -334,5 +534,6 @@ def run(L, tier):
     repo = Repo(L.repo)
     L.stage(r1_counter, L, repo)
     L.stage(r2_indication, L, repo)
-    L.stage(r3_deadline, L, repo)
+    L.stage(r3_paths, L, repo)
+    L.structural("C09.R3 def-use classification of the deadline variable in the worker loop", r3_deadline, L, repo)
     L.stage(r4_restart, L, repo)
